@@ -84,9 +84,31 @@ def presence_edges(ctx: Context, cfg, T: Terms, key: int, container_ok):
                 edges += cfg.out_edges(n, ("T",) if m[2] else ("F",))
             continue
         t = strip_sites(T.of(cfg, n, e))
-        if t[0] == "call" and t[1][0] == "attr" and t[1][2] == "get" and t[2] and t[2][0] == ("const", key) and container_ok(t[1][1]):
+
+        def is_get(x) -> bool:  # container.get(key) / container.get(key, None)
+            return (x[0] == "call" and x[1][0] == "attr" and x[1][2] == "get" and x[2] and x[2][0] == ("const", key) and container_ok(x[1][1])
+                    and (len(x[2]) == 1 or x[2][1] == ("const", None)) and not x[3])
+
+        if is_get(t):
             edges += cfg.out_edges(n, ("T",))
+        # `container.get(key) is None` / `is not None`
+        if t[0] == "cmp" and len(t[1]) == 1 and t[1][0] in ("Is", "IsNot") and len(t[2]) == 2 and t[2][1] == ("const", None) and is_get(t[2][0]):
+            edges += cfg.out_edges(n, ("T",) if t[1][0] == "IsNot" else ("F",))
     return edges
+
+
+def get_as_item(t):
+    """`d.get(K)` / `d.get(K, None)` read as the item `d[K]`: the same value wherever the key is present, and the rules that
+    compare item terms always pair them with a presence gate of their own."""
+    if not isinstance(t, tuple):
+        return t
+    if t and t[0] == "const":
+        return t
+    t = tuple(get_as_item(x) if isinstance(x, tuple) else x for x in t)
+    if len(t) >= 4 and t[0] == "call" and isinstance(t[1], tuple) and len(t[1]) == 3 and t[1][0] == "attr" and t[1][2] == "get" and not t[3] \
+            and (len(t[2]) == 1 or (len(t[2]) == 2 and t[2][1] == ("const", None))) and t[2][0][0] == "const":
+        return ("sub", t[1][1], t[2][0])
+    return t
 
 
 def step_edges(ctx: Context, cfg, T: Terms, ordinal: int, state: bytes):
